@@ -293,6 +293,14 @@ class FromArray(IO):
                 self._determ_token = (type(self), self.operand("_name_override"))
             else:
                 operands = [lock_token if p == "lock" else self.operand(p) for p in self._parameters]
+                spec = self.operand("_chunks")
+                if spec == "auto" or (isinstance(spec, (tuple, list)) and "auto" in spec) or (
+                    isinstance(spec, dict) and "auto" in spec.values()
+                ):
+                    # "auto" resolves against array.chunk-size when the node is
+                    # built: two builds under different settings are different
+                    # arrays and must not share a name (and a singleton)
+                    operands.append(self.chunks)
                 try:
                     self._determ_token = _tokenize_deterministic(type(self), *operands)
                 except TokenizationError:
